@@ -380,6 +380,14 @@ def discharge(ctx, body, p, ev, kind):
                 probe = ev.term
             if substr_in_bounds(substr(probe)):
                 return "G6-substring-at-searched-positions"
+            # R[1..R.find(b)] / R[1..] where R = S[S.(r)find(a)..] starts with the one-byte delimiter a and b is another delimiter:
+            # position 1 is the boundary right after a, and the first b cannot be at position 0
+            ss = substr(probe)
+            if ss is not None and ss[1] == ("const", 1) and (ss[2] == LEN or (isinstance(ss[2], tuple) and ss[2][0] in ("find", "rfind") and ss[2][2] == 0)):
+                rr = substr(ss[0])
+                if rr is not None and rr[2] == LEN and isinstance(rr[1], tuple) and rr[1][0] in ("find", "rfind") and rr[1][2] == 0 and rr[1][1] and len(rr[1][1].encode("utf-8")) == 1 \
+                        and (ss[2] == LEN or (ss[2][1] and not ss[2][1].startswith(rr[1][1]))):
+                    return "G6-after-leading-delimiter"
         if last == "split_at" and "str" in nm:
             s, at = strip_refs(ev.args[0]), ev.args[1]
             sp_ = search_pos(at)
@@ -736,8 +744,20 @@ def termination(ctx):
     cyc = [sorted(c) for c in sccs if len(c) > 1 or (len(c) == 1 and next(iter(c)) in graph.get(next(iter(c)), ()))]
     registered = [["pattern::Pattern::alternate_match", "pattern::Pattern::matches"]]
     for c in cyc:
+        am = "pattern::Pattern::alternate_match"
+        core = [k for k in c if not k.startswith(am + "::{closure")]
+        if core in registered and core != c:
+            # the same cycle with the per-alternative work written as closures (`.any(|a| ..)`): the measure is C04's normal form of the expansion --
+            # prefix + one alternative of the text strictly between the right-most '{' and the first '}' after it + suffix has one '{' fewer
+            body = ctx.body(am)
+            bad = required_rules_failing(ctx, "C04", ["D1-BRACE-PAIR", "D2-EXPANSION", "D3-SKIP-INVALID"])
+            ctx.check(not bad, "TERM-RECURSION", "+".join(core), "measure:brace-count-decreases", "each recursive call drops one '{' and one '}' (C04 D1/D2 hold on this tree)",
+                      "the recursive call's pattern is not established to be the original with one brace pair removed (%s): recursion may not terminate" % bad[:2], fn_span(body))
+            ctx.check(False, "TERM-COST", "+".join(core), "fan-out-inside-recursion", "no fan-out",
+                      "the recursive call sits inside the iteration over a group's alternatives and recursion depth equals the number of brace pairs: the number of expansions tried is the product of the group sizes "
+                      "(e.g. 25 groups of two alternatives -> 2^25 compiled patterns for a non-matching name) and depth is input-controlled (about 10^4 nested pairs exhaust the stack)", fn_span(body))
+            continue
         if c in registered:
-            am = "pattern::Pattern::alternate_match"
             body = ctx.body(am)
             paths = ctx.paths(am)
             # measure: the recursive call's pattern omits one '{' and one '}' of the original
